@@ -635,6 +635,21 @@ def find_witness(prop, v, repo, log):
         r = slice_grid_search(log)
         r['search'] = 'all len<=6 x start/stop in [-8,8]+extremes x step on the real library vs Python slicing'
         return r
+    if 'C07.slots.' in oid or 'get_slot_local' in fn:
+        build(log)
+        progs = ['def outer():\n    def inner():\n        return x\n    r = inner()\n    x = 1\n    return r\nouter()',
+                 'def outer():\n    f = lambda: y\n    r = f()\n    y = 2\n    return r\nouter()',
+                 'def outer():\n    def inner():\n        return z\n    if False:\n        z = 1\n    return z\nouter()',
+                 'def g():\n    return w\n    w = 1\ng()']
+        n = 0
+        for src in progs:
+            p = subprocess.run([BIN, 'evalseq', src], capture_output=True, text=True, timeout=120)
+            o = (p.stdout.strip().splitlines() or ['?'])[-1]
+            n += 1
+            if not o.startswith('ERR'):
+                return {'witness': {'program': src, 'real_library': o + (' (panic)' if 'panicked' in p.stderr else ''), 'expected': 'ERR Local variable ... referenced before assignment'},
+                        'grid_points': n, 'search': 'reads of unassigned locals, plain and captured by def / lambda'}
+        return {'witness': None, 'grid_points': n, 'search': 'reads of unassigned locals, plain and captured by def / lambda'}
     if 'eval_module' in oid or fn.endswith('::eval_module'):
         build(log)
         p = subprocess.run([BIN, 'module-depth'], capture_output=True, text=True, timeout=300)
